@@ -127,6 +127,7 @@ func runSeg(msize uint32, dotu bool, body []byte, cuts []int, expect int) (res s
 	})
 	defer unsub()
 	done := make(chan bool)
+	rdotu := dotu
 	go func() { // reader
 		for {
 			buf, err := readFrame(s.c, 3*time.Second)
@@ -136,11 +137,14 @@ func runSeg(msize uint32, dotu bool, body []byte, cuts []int, expect int) (res s
 				}
 				break
 			}
-			rc, _, err := g.Unpack(buf, dotu)
+			rc, _, err := g.Unpack(buf, rdotu)
 			if err != nil {
 				res.replies[uint16(60000+res.nrep)] = "undecodable"
 			} else {
 				res.replies[rc.Tag] = showFcall(rc)
+				if rc.Type == g.Rversion { // what follows is in the dialect this reply announces
+					rdotu = rc.Version == "9P2000.u"
+				}
 			}
 			res.nrep++
 			if res.nrep == expect {
@@ -199,11 +203,99 @@ func bodyFrames(body []byte, msize uint32) int {
 	return n
 }
 
+// bodyFramesV: as bodyFrames, for a body whose Tversions lower the msize.
+func bodyFramesV(body []byte, msize uint32) int {
+	n := 0
+	for len(body) > 4 {
+		sz := binary.LittleEndian.Uint32(body)
+		if sz < 7 || sz > msize || int(sz) > len(body) {
+			break
+		}
+		t := body[4]
+		if t < g.Tversion || t >= g.Tlast || t%2 == 1 {
+			break
+		}
+		if t == g.Tversion && sz >= 13 {
+			if m := binary.LittleEndian.Uint32(body[7:]); m >= 24 && m < msize {
+				msize = m
+			}
+		}
+		n++
+		body = body[sz:]
+	}
+	return n
+}
+
+// genBodyV: a session negotiated as 9P2000.u on a server that speaks it; the body opens with a Tversion
+// that asks for plain 9P2000 (and sometimes a smaller msize), followed by requests in the plain
+// dialect, some of which do not decode as 9P2000.u, sometimes one that only the old msize admits.
+func genBodyV(r *rand.Rand, msize uint32) ([]byte, map[uint16]string) {
+	var body []byte
+	payloads := map[uint16]string{}
+	fc := g.NewFcall(8192)
+	m2 := []uint32{msize, msize - 8, msize - 30, 8192}[r.Intn(4)]
+	g.PackTversion(fc, m2, "9P2000")
+	body = append(body, fc.Pkt...)
+	eff := msize
+	if m2 < eff {
+		eff = m2
+	}
+	n := 2 + r.Intn(6)
+	big := -1
+	if eff < msize && r.Intn(3) == 0 {
+		big = r.Intn(n)
+	}
+	for i := 0; i < n; i++ {
+		tag := uint16(10 + i)
+		var err error
+		switch {
+		case i == big:
+			// fits the msize of before the Tversion only
+			d := genBytes(r, int(eff)-23+r.Intn(int(msize-eff)))
+			err = g.PackTwrite(fc, 2, 0, uint32(len(d)), d)
+		default:
+			switch r.Intn(6) {
+			case 0:
+				err = g.PackTattach(fc, uint32(20+i), g.NOFID, "u", "", 0, false)
+			case 1:
+				err = g.PackTcreate(fc, 77, "n", 0644, 0, "", false)
+			case 2:
+				err = g.PackTstat(fc, 1)
+			case 3:
+				d := genBytes(r, r.Intn(int(eff)-23))
+				err = g.PackTwrite(fc, 2, uint64(r.Intn(1000)), uint32(len(d)), d)
+				payloads[tag] = short(d)
+			case 4:
+				err = g.PackTauth(fc, uint32(40+i), "u", "", 0, false)
+			default:
+				err = g.PackTread(fc, 2, 0, 10)
+			}
+		}
+		if err != nil {
+			continue
+		}
+		g.SetTag(fc, tag)
+		body = append(body, fc.Pkt...)
+	}
+	return body, payloads
+}
+
 func (r segResult) obs() string { return fmt.Sprintf("frames=%d dropped=%s", r.nframes, b2s(r.dropped)) }
 
 func execSeg(line string) (string, bool) {
 	t := strings.Fields(line)
 	switch t[0] {
+	case "framesv":
+		msize := uint32(atou(t[2], 32))
+		var body []byte
+		var cuts []int
+		for _, h := range t[5:] {
+			b := mustHex(h)
+			body = append(body, b...)
+			cuts = append(cuts, len(body))
+		}
+		r := runSeg(msize, t[3] == "1", body, cuts, bodyFramesV(body, msize))
+		return segObs(r, len(body), msize), r.nrep > 0
 	case "frames":
 		// replayed model line: re-run the implementation on the same chunks
 		msize := uint32(atou(t[1], 32))
@@ -287,6 +379,11 @@ func genC13(c *Ctx) {
 			hx[k] = hexOr(ch)
 		}
 		line := fmt.Sprintf("frames %d %s 1 %s", msize, b2s(dotu), strings.Join(hx, " "))
+		if strings.HasPrefix(kind, "v-") {
+			// the body renegotiates: the model threads msize and dialect through the frames
+			expect = bodyFramesV(body, msize)
+			line = fmt.Sprintf("framesv %s %d %s 1 %s", b2s(dotu), msize, b2s(dotu), strings.Join(hx, " "))
+		}
 		c.begin(line)
 		r := runSeg(msize, dotu, body, cuts, expect)
 		c.count("split:" + kind)
@@ -347,6 +444,30 @@ func genC13(c *Ctx) {
 			}
 			sort.Ints(cuts)
 			emitRun(msize, dotu, body, cuts, &base, payloads, "random")
+		}
+	}
+	// a Tversion at the head of the body changes the dialect and lowers the msize: the frames behind it —
+	// in the same read or not — are checked and decoded with what it negotiated
+	for k := 0; k < c.scale(10, 200) && !c.stop(); k++ {
+		i++
+		r := c.rng(i)
+		msize := []uint32{100, 128, 257, 1024}[r.Intn(4)]
+		body, payloads := genBodyV(r, msize)
+		base := emitRun(msize, true, body, nil, nil, payloads, "v-whole")
+		step := 1
+		if len(body) > c.scale(50, 300) {
+			step = len(body)/c.scale(50, 300) + 1
+		}
+		for cut := 1; cut < len(body) && !c.stop(); cut += step {
+			emitRun(msize, true, body, []int{cut}, &base, payloads, "v-single")
+		}
+		for m := 0; m < 4; m++ {
+			var cuts []int
+			for x := 0; x < 1+r.Intn(8); x++ {
+				cuts = append(cuts, 1+r.Intn(len(body)))
+			}
+			sort.Ints(cuts)
+			emitRun(msize, true, body, cuts, &base, payloads, "v-random")
 		}
 	}
 	// bodies longer than the 8*msize receive buffer, cut densely around its end, so that a
